@@ -104,7 +104,7 @@ def run(ctx):
     corpus = []
     if os.path.isdir(corpus_dir):
         for fn in sorted(os.listdir(corpus_dir)):
-            corpus += vf.parse_cases(open(os.path.join(corpus_dir, fn)).read())
+            corpus += [c for c in vf.parse_cases(open(os.path.join(corpus_dir, fn)).read()) if " kind=" not in c[0]]
     parts = 1 if ctx.tier == "quick" else THOROUGH_PARTS
     seen = set()
     distinct = set()
